@@ -211,10 +211,12 @@ func workDirMode(prop, tier string, seed uint64, mode string) string {
 	return filepath.Join(verifRoot, ".work", fmt.Sprintf("%s-%s-%d-%s", prop, tier, seed, mode))
 }
 
-func runWorker(def *CheckDef, tier string, seed uint64, w, nw, startAfter int, gen int, limit int) int {
+func runWorker(def *CheckDef, tier string, seed uint64, w, nw, startAfter int, gen int, limit int, dir string) int {
 	debug.SetTraceback("all")
 	debug.SetPanicOnFault(true) // per goroutine: cases run on this one
-	dir := workDir(def.ID, tier, seed)
+	if dir == "" {
+		dir = workDir(def.ID, tier, seed)
+	}
 	ctx := newCtx(def.ID, tier, seed)
 	jf, err := os.OpenFile(filepath.Join(dir, fmt.Sprintf("w%d.journal", w)), os.O_CREATE|os.O_WRONLY|os.O_APPEND, 0644)
 	if err != nil {
@@ -354,13 +356,34 @@ func superviseCheck(def *CheckDef, tier string, seed uint64, exe string) int {
 			}
 		}
 	}
+	// evidence only: statement coverage of /repo reached by a quick-sized slice
+	// of the case list, from a -cover build (thorough tier, plain-mode checks)
+	coverExe := plainExe + ".cover"
+	if _, err := os.Stat(coverExe); err == nil && tier == "thorough" && !def.Race {
+		covDir := filepath.Join(verifRoot, ".work", fmt.Sprintf("%s-cov-%d", def.ID, seed))
+		os.RemoveAll(covDir)
+		os.MkdirAll(covDir, 0755)
+		scratch := &Merged{Counters: map[string]int64{}, Distinct: map[string]struct{}{}, ViolByFP: map[string]int{}}
+		lim := def.NumCases("quick")
+		if lim > def.NumCases(tier) {
+			lim = def.NumCases(tier)
+		}
+		runPass(def, tier, seed, coverExe, "cover", lim, scratch, "GOCOVERDIR="+covDir)
+		if preInfo == nil {
+			preInfo = map[string]interface{}{}
+		}
+		preInfo["statement_coverage"] = coverageOf(covDir)
+		preInfo["statement_coverage_note"] = fmt.Sprintf("measured with go build -cover -coverpkg=all on the first %d work items of this tier; evidence only, never a verdict", lim)
+		os.RemoveAll(covDir)
+		modes = append(modes, "cover(evidence only)")
+	}
 	passModes = modes
 	return conclude(def, tier, seed, merged, preInfo, time.Since(t0).Seconds())
 }
 
 var passModes []string
 
-func runPass(def *CheckDef, tier string, seed uint64, exe, mode string, limit int, merged *Merged) {
+func runPass(def *CheckDef, tier string, seed uint64, exe, mode string, limit int, merged *Merged, extraEnv ...string) {
 	dir := workDirMode(def.ID, tier, seed, mode)
 	os.RemoveAll(dir)
 	os.MkdirAll(dir, 0755)
@@ -401,10 +424,11 @@ func runPass(def *CheckDef, tier string, seed uint64, exe, mode string, limit in
 				ef, _ := os.Create(errFile)
 				cmd := exec.Command(exe, "worker", def.ID, "--tier", tier, "--seed", strconv.FormatUint(seed, 10),
 					"--w", strconv.Itoa(w), "--nw", strconv.Itoa(nw), "--start-after", strconv.Itoa(startAfter),
-					"--gen", strconv.Itoa(gen), "--limit", strconv.Itoa(limit))
+					"--gen", strconv.Itoa(gen), "--limit", strconv.Itoa(limit), "--dir", dir)
 				cmd.Stdout = ef
 				cmd.Stderr = ef
 				cmd.Env = append(os.Environ(), "GORACE=halt_on_error=0 log_path="+filepath.Join(dir, fmt.Sprintf("race.w%d.g%d", w, gen)))
+				cmd.Env = append(cmd.Env, extraEnv...)
 				err := cmd.Run()
 				ef.Close()
 				resFile := filepath.Join(dir, fmt.Sprintf("w%d.g%d.result.json", w, gen))
@@ -481,6 +505,70 @@ func runPass(def *CheckDef, tier string, seed uint64, exe, mode string, limit in
 			merged.Infra = append(merged.Infra, fmt.Sprintf("%d race reports with harness-only frames: %s", foreign, truncate(raceReports[0], 1500)))
 		}
 	}
+}
+
+// coverageOf turns a GOCOVERDIR into per-file statement coverage of the
+// openacid/slim packages.
+func coverageOf(covDir string) map[string]interface{} {
+	prof := filepath.Join(covDir, "profile.txt")
+	cmd := exec.Command("go", "tool", "covdata", "textfmt", "-i="+covDir, "-o="+prof)
+	if out, err := cmd.CombinedOutput(); err != nil {
+		return map[string]interface{}{"error": fmt.Sprint(err, " ", truncate(string(out), 300))}
+	}
+	f, err := os.Open(prof)
+	if err != nil {
+		return map[string]interface{}{"error": err.Error()}
+	}
+	defer f.Close()
+	type blk struct{ n, hit int }
+	blocks := map[string]*blk{} // file:range -> stmts, hit
+	sc := bufio.NewScanner(f)
+	sc.Buffer(make([]byte, 1<<20), 1<<20)
+	for sc.Scan() {
+		ln := sc.Text()
+		if !strings.HasPrefix(ln, "github.com/openacid/slim/") {
+			continue
+		}
+		parts := strings.Fields(ln)
+		if len(parts) != 3 {
+			continue
+		}
+		n, _ := strconv.Atoi(parts[1])
+		c, _ := strconv.Atoi(parts[2])
+		b := blocks[parts[0]]
+		if b == nil {
+			b = &blk{n: n}
+			blocks[parts[0]] = b
+		}
+		if c > 0 {
+			b.hit = 1
+		}
+	}
+	type agg struct{ total, covered int }
+	files := map[string]*agg{}
+	for k, b := range blocks {
+		file := strings.TrimPrefix(k[:strings.LastIndex(k, ":")], "github.com/openacid/slim/")
+		if strings.HasSuffix(file, ".pb.go") || strings.Contains(file, "/benchmark/") || strings.Contains(file, "/report/") || strings.HasPrefix(file, "tools/") || strings.HasPrefix(file, "benchhelper/") {
+			continue
+		}
+		a := files[file]
+		if a == nil {
+			a = &agg{}
+			files[file] = a
+		}
+		a.total += b.n
+		if b.hit > 0 {
+			a.covered += b.n
+		}
+	}
+	out := map[string]interface{}{}
+	for f, a := range files {
+		if a.covered == 0 {
+			continue
+		}
+		out[f] = fmt.Sprintf("%d/%d statements (%.0f%%)", a.covered, a.total, 100*float64(a.covered)/float64(a.total))
+	}
+	return out
 }
 
 func isOOM(err error, tail string) bool {
@@ -716,14 +804,12 @@ func writeEvidence(def *CheckDef, tier string, seed uint64, m *Merged, preInfo m
 	if len(infra) > 0 {
 		ev["infrastructure"] = infra
 	}
-	if extra := os.Getenv("VERIF_EVIDENCE_SUFFIX"); extra != "" {
-		// secondary build-mode passes write next to, not over, the main file
-		b, _ := json.MarshalIndent(ev, "", " ")
-		ioutil.WriteFile(filepath.Join(verifRoot, "evidence", def.ID+"."+extra+".json"), b, 0644)
-		return
-	}
-	// merge secondary passes recorded by bin/check before this call
 	b, _ := json.MarshalIndent(ev, "", " ")
-	os.MkdirAll(filepath.Join(verifRoot, "evidence"), 0755)
+	os.MkdirAll(filepath.Join(verifRoot, "evidence", "thorough"), 0755)
 	ioutil.WriteFile(filepath.Join(verifRoot, "evidence", def.ID+".json"), b, 0644)
+	if tier == "thorough" {
+		// the registered evidence file always reflects the latest run; the
+		// deepest exploration is also kept next to it
+		ioutil.WriteFile(filepath.Join(verifRoot, "evidence", "thorough", def.ID+".json"), b, 0644)
+	}
 }
